@@ -37,7 +37,7 @@ const char *mc_rule = "part A: DFS grid width 0..9 x id set (0, 2^k-1, 2^k, 2^k+
                       "nontrivial = id occupies the most significant header byte or does not fit. "
                       "part B: BFS over histories of arm (context width; in the :altarm jobs additionally once per history with id length 0, width-1, width+1, 4 or 5)/reply/context_reply/defer/handle reply/handle release/addref/unref x transport accepts|rejects on a fresh mpt_reply_deferrable context, "
                       "canonical-state dedupe; nontrivial = distinct (history, op) steps executed while a request is deferred, was rejected by the transport before, or a second request exists. "
-                      "part D: the same request/handler scripts (plus defer with late handle use, dispatch without handler) through mpt_connection_dispatch on a stream backed and on a datagram connection. part E: requester side, 1..2 incoming replies from 5 letters x {mpt_connection_dispatch, mpt_stream_sync} x {id reused afterwards or not}, each case in a forked child. part C: DFS over 1..2 requests x {zero id, id} x 7 handler scripts x {handler returns 0, returns an error} x 2 open modes, two further dispatch rounds after every delivery, x {one by one, queued together} through mpt_stream_input on a socketpair; nontrivial = two requests or a script other than none/reply";
+                      "part D: the same request/handler scripts (plus defer with late handle use, dispatch without handler) through mpt_connection_dispatch on a stream backed and on a datagram connection. part E: requester side, 1..3 incoming replies from 7-8 letters (incl. reply for a request waiting behind requests 1 and 2) x {mpt_connection_dispatch, mpt_stream_sync} x {id reused afterwards or not} x {all reply handlers return 0, handler of request 1 or 2 reports an error (sync stops and compacts its wait list)}, each case in a forked child. part C: DFS over 1..2 requests x {zero id, id} x 7 handler scripts x {handler returns 0, returns an error} x 2 open modes, two further dispatch rounds after every delivery, x {one by one, queued together} through mpt_stream_input on a socketpair; nontrivial = two requests or a script other than none/reply";
 
 // =====================================================================
 // Part A
